@@ -3,6 +3,7 @@
 From Coq Require Import List ZArith QArith Bool.
 From PV Require Import lib.Sx lib.Str lib.Result.
 From PV Require Import model.Generated model.Detect model.Base spec.SpecDetect spec.SpecBase.
+From PV Require Import model.Geometry spec.SpecGeom.
 Import ListNotations.
 Open Scope Z_scope.
 
@@ -83,12 +84,103 @@ Definition req_c19_ok_merge (arg : sx) : sx :=
   | _ => bad
   end.
 
+(* ---- geometry (C18, C13) ---------------------------------------------------- *)
+Definition unit_code (u : unit_) : Z := match u with PX => 0 | EM => 1 | PCT => 2 | CELL => 3 | PT => 4 end.
+Definition sx_unit (x : sx) : option unit_ :=
+  match x with SI 0 => Some PX | SI 1 => Some EM | SI 2 => Some PCT | SI 3 => Some CELL | SI 4 => Some PT | _ => None end.
+Definition sx_size (x : sx) : option size :=
+  match x with
+  | SL [q; u] => match sx_q q, sx_unit u with Some q, Some u => Some (mkSize q u) | _, _ => None end
+  | _ => None
+  end.
+Definition of_size (a : size) : sx := SL [of_q (s_val a); SI (unit_code (s_unit a))].
+Definition sx_point (x : sx) : option point :=
+  match x with SL [a; b] => match sx_size a, sx_size b with Some a, Some b => Some (mkPoint a b) | _, _ => None end
+  | _ => None end.
+Definition sx_stretch (x : sx) : option stretch :=
+  match x with SL [a; b] => match sx_size a, sx_size b with Some a, Some b => Some (mkStretch a b) | _, _ => None end
+  | _ => None end.
+Definition sx_padding (x : sx) : option padding :=
+  match x with
+  | SL [a; b; c; d] => match sx_size a, sx_size b, sx_size c, sx_size d with
+                       | Some a, Some b, Some c, Some d => Some (mkPadding a b c d) | _, _, _, _ => None end
+  | _ => None end.
+Definition sx_halign (x : sx) : option halign :=
+  match x with SI 0 => Some HLeft | SI 1 => Some HCenter | SI 2 => Some HRight | SI 3 => Some HStart | SI 4 => Some HEnd
+  | _ => None end.
+Definition sx_valign (x : sx) : option valign :=
+  match x with SI 0 => Some VTop | SI 1 => Some VCenter | SI 2 => Some VBottom | _ => None end.
+Definition halign_code (h : halign) : Z := match h with HLeft => 0 | HCenter => 1 | HRight => 2 | HStart => 3 | HEnd => 4 end.
+Definition valign_code (v : valign) : Z := match v with VTop => 0 | VCenter => 1 | VBottom => 2 end.
+Definition sx_alignment (x : sx) : option alignment :=
+  match x with
+  | SL [a; b] => match sx_opt sx_halign a, sx_opt sx_valign b with
+                 | Some a, Some b => Some (mkAlign a b) | _, _ => None end
+  | _ => None end.
+Definition sx_layout (x : sx) : option layout :=
+  match x with
+  | SL [o; e; p; a; w] =>
+      match sx_opt sx_point o, sx_opt sx_stretch e, sx_opt sx_padding p, sx_opt sx_alignment a, sx_opt sx_str w with
+      | Some o, Some e, Some p, Some a, Some w => Some (mkLayout o e p a w)
+      | _, _, _, _, _ => None
+      end
+  | _ => None end.
+Definition of_point (p : point) : sx := SL [of_size (p_x p); of_size (p_y p)].
+Definition of_stretch (p : stretch) : sx := SL [of_size (st_h p); of_size (st_v p)].
+Definition of_padding (p : padding) : sx :=
+  SL [of_size (pd_before p); of_size (pd_after p); of_size (pd_start p); of_size (pd_end p)].
+Definition of_alignment (a : alignment) : sx :=
+  SL [of_opt (fun h => SI (halign_code h)) (al_h a); of_opt (fun v => SI (valign_code v)) (al_v a)].
+Definition of_layout (l : layout) : sx :=
+  SL [of_opt of_point (l_origin l); of_opt of_stretch (l_extent l); of_opt of_padding (l_padding l);
+      of_opt of_alignment (l_alignment l); of_opt SS (l_webvtt l)].
+Definition sx_vu (x : sx) : option (Q * unit_) :=
+  match x with SL [q; u] => match sx_q q, sx_unit u with Some q, Some u => Some (q, u) | _, _ => None end | _ => None end.
+
+Definition req_geom (code : Z) (arg : sx) : sx :=
+  match code, arg with
+  | 1800, SS s => of_result of_size (size_from_string s)
+  | 1801, SL [SS s; obs] =>
+      match sx_result sx_vu obs with Some o => of_bool (ok_parse s o) | None => bad end
+  | 1802, a => match sx_size a with Some a => SS (size_str a) | None => bad end
+  | 1803, SL [a; SS printed] =>
+      match sx_size a with Some a => of_bool (ok_print (s_val a) (s_unit a) printed) | None => bad end
+  | 1804, SL [a; b] =>
+      match sx_layout a, sx_layout b with Some a, Some b => of_bool (layout_eqb a b) | _, _ => bad end
+  | 1805, SL [a; b; e; n; h] =>
+      match sx_layout a, sx_layout b, sx_bool e, sx_bool n, sx_bool h with
+      | Some a, Some b, Some e, Some n, Some h => of_bool (ok_eq a b e n h)
+      | _, _, _, _, _ => bad end
+  | 1806, SS s => of_result of_padding (padding_from_attr s)
+  | 1807, SL [SS s; obs] =>
+      match sx_result sx_padding obs with Some o => of_bool (ok_padding s o) | None => bad end
+  | 1300, SL [a; w; h] =>
+      match sx_size a, sx_opt sx_q w, sx_opt sx_q h with
+      | Some a, Some w, Some h => of_result of_size (size_as_pct a w h) | _, _, _ => bad end
+  | 1301, SL [a; hz; d; obs] =>
+      match sx_size a, sx_bool hz, sx_opt sx_q d, sx_result sx_size obs with
+      | Some a, Some hz, Some d, Some o => of_bool (ok_size_pct a hz d o) | _, _, _, _ => bad end
+  | 1302, SL [r; f; w; h; l] =>
+      match sx_bool r, sx_bool f, sx_opt sx_q w, sx_opt sx_q h, sx_layout l with
+      | Some r, Some f, Some w, Some h, Some l => of_result of_layout (relativize_and_fit r f w h l)
+      | _, _, _, _, _ => bad end
+  | 1303, SL [l; obs] =>
+      match sx_layout l, sx_result sx_layout obs with
+      | Some l, Some o => of_bool (ok_fit l o) | _, _ => bad end
+  | 1304, SL [l; w; h; obs] =>
+      match sx_layout l, sx_opt sx_q w, sx_opt sx_q h, sx_result sx_layout obs with
+      | Some l, Some w, Some h, Some o => of_bool (ok_layout_pct l w h o) | _, _, _, _ => bad end
+  | _, _ => bad
+  end.
+
 Definition dispatch (code : Z) (arg : sx) : sx :=
   match code with
   | 1900 => req_c19_adjust arg
   | 1901 => req_c19_ok_adjust arg
   | 1902 => req_c19_merge arg
   | 1903 => req_c19_ok_merge arg
+  | 1800 | 1801 | 1802 | 1803 | 1804 | 1805 | 1806 | 1807
+  | 1300 | 1301 | 1302 | 1303 | 1304 => req_geom code arg
   | 2000 => req_c20_model arg
   | 2001 => req_c20_ok arg
   | _ => bad
